@@ -89,6 +89,9 @@ Judge(s, e) ==
     [] e.t = "advance" ->    \* the loop slept until e.to; after a callback has raised it must not go back to sleep
          R([s EXCEPT !.now = IF e.to > @ THEN e.to ELSE @], IF s.raised # {} /\ e.to > s.now THEN "exception_stops_the_loop" ELSE "-")
     [] e.t = "env_readable" -> R([s EXCEPT !.readable = @ \cup {e.fd}], "-")
+    [] e.t = "rerun" ->      \* run() is called again on the same loop object: what an earlier run raised is over and done with
+         \* (and so is the obligation to run idle callbacks for callbacks of the aborted run: the property speaks of one run)
+         R([s EXCEPT !.raised = {}, !.dirty = FALSE, !.seen = {}, !.owed = {}], "-")
     [] e.t = "run_end" ->
          IF e.outcome = "stuck" THEN R(s, "loop_never_serves_due_event")
          ELSE IF s.raised = {} THEN R(s, IF e.outcome = "return" THEN "run_returned_without_exit" ELSE "run_raises_only_what_a_callback_raised")
